@@ -25,6 +25,13 @@ Json generate(const std::string& tier, uint64_t seed, uint64_t index) {
   if (nb && (nb == s.message.size() || s.message[nb] == '\n' || s.message[nb] == '\r')) s.message.insert(nb, "msg");
   Json sc = Json::object();
   sc.set("sol", s.to_json());
+  // a second reader party: the library's own handler behind NLSolver::ReadSolution() (the "easy" API), for a model whose
+  // columns are of mixed classes, so that the file's NL order is a proper permutation of the caller's order
+  if (s.nvars > 0 && s.nlcons == 0 && rng.chance(0.25)) {
+    Json ty = Json::array();
+    for (int j = 0; j < s.nvars; ++j) ty.push((long)rng.below(3));
+    sc.set("easy_types", ty);
+  }
   return sc;
 }
 
@@ -226,6 +233,44 @@ sim::RunResult run(const Json& sc) {
       }
     }
     if (vi < res.vecs.size() && r.verdict == "OK") v.set("SUFFIX_MISMATCH", "phantom", "more vectors/suffixes delivered than written");
+  }
+  // ---- the same file through the easy API: everything per column comes back in the caller's order
+  if (sc.has("easy_types") && r.verdict == "OK" && res.status == "returned" && res.rc == 0 && !nonfinite) {
+    SolReadConfig ec; ec.nvars = s.nvars; ec.ncons = s.ncons; ec.nlcons = 0; ec.easy_party = true;
+    for (auto& t : sc["easy_types"].arr()) ec.easy_types.push_back((int)t.as_int());
+    SolReadResult er;
+    SimRun se = sim_session(nofaults, 400000, [&] { er = read_sol(path, ec); });
+    bump(st, "easy_party_runs");
+    if (se.exited) v.set("HANG", "easy-reader", "NLSolver::ReadSolution did not return");
+    else if (er.status != "returned") v.set("UNEXPECTED_EXCEPTION", "easy/" + er.status, "NLSolver::ReadSolution threw " + er.status + ": " + er.what);
+    else if (er.rc != 0) bump(st, "easy_party_rejected");       // (objective / problem suffixes beyond what the one-objective model has, ...)
+    else if ((int)er.easy_vperm.size() == s.nvars) {
+      bump(st, "easy_party_read_ok");
+      const std::vector<int>& vp = er.easy_vperm;
+      bool moved = false; for (int j = 0; j < s.nvars; ++j) moved |= vp[(size_t)j] != j;
+      if (moved) bump(st, "easy_party_permuted");
+      { std::vector<int> seen((size_t)s.nvars, 0); int c3 = 0; for (int j = 0; j < s.nvars; ++j) if (!seen[(size_t)j]) { int len = 0; for (int q = j; !seen[(size_t)q]; q = vp[(size_t)q]) { seen[(size_t)q] = 1; ++len; } if (len >= 3) ++c3; } if (c3) bump(st, "easy_party_long_cycle"); }
+      const VecRec* ex = nullptr; for (auto& g : er.vecs) if (g.what == 'x') ex = &g;
+      if (!s.x.empty() && ex && (int)ex->vals.size() == s.nvars && (int)s.x.size() == s.nvars)
+        for (int j = 0; j < s.nvars; ++j) if (!value_ok(s.x[(size_t)vp[(size_t)j]], ex->vals[(size_t)j])) { v.set("EASY_ORDER", "x", "column " + std::to_string(j) + " (NL position " + std::to_string(vp[(size_t)j]) + "): wrote " + dbl_canon(s.x[(size_t)vp[(size_t)j]], false) + ", NLSolution.x_ has " + dbl_canon(ex->vals[(size_t)j], false)); break; }
+      for (auto& f : s.sufs) {
+        if (r.verdict != "OK") break;
+        const SolReadResult::EasySuf* g = nullptr;
+        for (auto& q : er.easy_sufs) if (q.name == f.name && (q.kind & 3) == f.kind && ((q.kind & 4) != 0) == f.real) g = &q;
+        if (!g) continue;          // (same name and kind as int and real: the solution keeps one of them)
+        int dups = 0; for (auto& f2 : s.sufs) if (f2.name == f.name && f2.kind == f.kind) ++dups;
+        if (dups > 1) continue;
+        for (auto& p0 : f.vals) {
+          double val = f.real ? p0.second : (double)(int)p0.second;
+          int at = p0.first;
+          if (f.kind == 0) { at = -1; for (int j = 0; j < s.nvars; ++j) if (vp[(size_t)j] == p0.first) at = j; }
+          if (at < 0 || at >= (int)g->values.size()) continue;
+          bool later = false; for (auto& p1 : f.vals) if (&p1 > &p0 && p1.first == p0.first) later = true;    // an index written twice: the last one counts
+          if (later) continue;
+          if (!value_ok(val, g->values[(size_t)at])) { v.set("EASY_ORDER", f.kind == 0 ? "var-suffix" : "other-suffix", "suffix '" + f.name + "' kind " + std::to_string(f.kind) + ": the value " + dbl_canon(val, false) + " written for NL item " + std::to_string(p0.first) + " belongs to the caller's item " + std::to_string(at) + ", which received " + dbl_canon(g->values[(size_t)at], false)); break; }
+        }
+      }
+    }
   }
   r.fingerprint = sim::fnv1a(bytes, res.hash);
   r.trace_sig = ts ^ sim::fnv1a(r.sig);
